@@ -26,8 +26,13 @@ def zbool_(x):
 # ---------------------------------------------------------------------------------------
 # embedding into V
 # ---------------------------------------------------------------------------------------
+CURRENT = {"ctx": None}
+
+
 def to_v(it, x):
     ctx = it.ctx if it is not None and hasattr(it, "ctx") else it
+    if ctx is None:
+        ctx = CURRENT["ctx"]
     if is_z3(x):
         if x.sort() == V:
             return x
@@ -1482,8 +1487,21 @@ def _dict_fromkeys(it, args, kwargs):
     kind, coll = iter_of(it, keys)
     if kind == "concrete":
         return {hashable(it, k): val for k in coll}
-    ks = coll
-    return SymKw(ks, Seq(ks.len, lambda j: val, None))
+    ks = unstructure(coll)
+    q = z3.Int("q!fk")
+    first = lambda k: z3.Not(z3.Exists([q], z3.And(0 <= q, q < k, ks.at(q) == ks.at(k))))
+    uniq = filter_seq(it.ctx, ks.len, first, lambda k: ks.at(k), ks.sort)
+    uniq.keep_symbolic = True
+    uniq.first_of = ks
+    parts = getattr(coll, "parts", None) or getattr(ks, "parts", None)
+    if parts is not None:
+        a, b = unstructure(parts[0]), unstructure(parts[1])
+        fa = lambda k: z3.Not(z3.Exists([q], z3.And(0 <= q, q < k, a.at(q) == a.at(k))))
+        fb = lambda k: z3.And(z3.Not(z3.Exists([q], z3.And(0 <= q, q < zint(a.len), a.at(q) == b.at(k)))),
+                              z3.Not(z3.Exists([q], z3.And(0 <= q, q < k, b.at(q) == b.at(k)))))
+        from .core import Enum
+        Enum.link_split(it.ctx, uniq.enum, a.len, b.len, fa, fb)
+    return SymKw(uniq, Seq(uniq.len, lambda j: val, None))
 
 
 def _any(it, args, kwargs):
@@ -1552,6 +1570,26 @@ class Sentinel:
 
     def __repr__(self):
         return f"<class {self.name}>"
+
+
+def _dir(it, args, kwargs):
+    """dir(instance): attribute names of the class hierarchy plus the instance attributes."""
+    obj = args[0]
+    if not isinstance(obj, Instance):
+        raise Unsupported("dir() of non-instance")
+    names = set(obj.attrs.keys())
+    for c in it.mro(obj.cls):
+        if isinstance(c, ClassObj):
+            names.update(c.info.methods.keys())
+            names.update(c.info.attrs.keys())
+            pref = f"_{c.info.name.lstrip('_')}"
+            names.update(pref + n for n in list(c.info.methods) + list(c.info.attrs) if n.startswith("__") and not n.endswith("__"))
+        elif isinstance(c, TypeObj):
+            py = {"dict": dict, "list": list, "object": object}.get(c.name)
+            if py is not None:
+                names.update(dir(py))
+    names.update(dir(object))
+    return MList(it.ctx, PyList(sorted(names)))
 
 
 def _type(it, args, kwargs):
@@ -1635,7 +1673,7 @@ def make_builtins(it):
         "print": ModelFn("print", _print), "hasattr": ModelFn("hasattr", _hasattr),
         "getattr": ModelFn("getattr", _getattr), "property": ModelFn("property", _property),
         "classmethod": ModelFn("classmethod", _classmethod), "staticmethod": ModelFn("staticmethod", _staticmethod),
-        "type": ModelFn("type", _type), "next": ModelFn("next", _next), "iter": ModelFn("iter", _iter),
+        "type": ModelFn("type", _type), "dir": ModelFn("dir", _dir), "next": ModelFn("next", _next), "iter": ModelFn("iter", _iter),
         "sorted": ModelFn("sorted", _sorted),
         "int": TypeObj("int"), "str": TypeObj("str"), "bool": TypeObj("bool"), "float": TypeObj("float"),
         "object": TypeObj("object", methods=dict(OBJECT_METHODS)),
